@@ -1,16 +1,15 @@
-import Ledger.Proofs.CtrlAcc
+import Ledger.Proofs.CtrlListed
 import Ledger.Proofs.CtrlExamples
 
 /-!
 # C18 — Account existence and first usage follow the history (controller layer)
 
 Proved for all states / operations / faults: accounts are never removed, the
-insertion date is constant, the first usage never rises.  The exact
-characterisation against the journal (`specOf`, Ledger/Ctrl/Spec.lean: listed iff
-involved or metadata-saved; first usage = creation date of a metadata-created
-account, else the earliest transaction timestamp) is stated below
-(`account_table_eq_journal_statement`) and, at this stage, TESTED on every
-operation of every generated history against the real code, not proved.
+insertion date is constant, the first usage never rises; and for ALL histories
+the accounts table equals the reference reading of the journal (`specOf`,
+Ledger/Ctrl/Spec.lean: listed iff involved or metadata-saved; first usage =
+creation date of a metadata-created account, else the earliest transaction
+timestamp).
 -/
 namespace Ledger.C18
 open Ledger.Ctrl Ledger.Core Ledger.Ctrl.Examples
@@ -46,13 +45,53 @@ theorem first_usage_lowered_by_backdated (now ts : Time) (accounts : Ledger.Base
   simp only [hex, hlt, decide_true, Bool.true_or, ↓reduceIte]
   exact ⟨_, get?_insert_self _ _ _, rfl, rfl⟩
 
-/-- The full characterisation (tested, not proved here): the accounts table equals
-    the reference reading of the journal. -/
-def account_table_eq_journal_statement : Prop :=
-  ∀ (strict : Bool) (ops : List Op),
-    projAccounts (runHist strict {} ops).db = (specOf (runHist strict {} ops).db.logs).accounts
+/-- After ANY sequential history the accounts table is exactly the reference reading
+    of the journal (`specOf`): an account is listed iff some committed transaction
+    involves it (source, destination or account-metadata key) or metadata was saved
+    on it (`specTouch` / `specSave` are the only steps that add a row); its first
+    usage is the date of the metadata save that created it, or the timestamp of the
+    creating transaction, lowered by every later transaction with an earlier
+    timestamp and by nothing else; its insertion date is the one of its creation. -/
+theorem account_table_eq_journal (strict : Bool) (ops : List Op) :
+    projAccounts (runHist strict {} ops).db = (specOf (runHist strict {} ops).db.logs).accounts := by
+  have h := runHist_spec strict {} ops SpecOk.empty
+  unfold SpecOk at h
+  rw [h]
+  rfl
 
-/-! tests of the full statement on concrete histories, and non-vacuity -/
+/-- An account is listed iff the journal involves it: some committed transaction
+    has it as source, destination or account-metadata key, or metadata was saved on it. -/
+theorem account_listed_iff (strict : Bool) (ops : List Op) (a : String) :
+    ((runHist strict {} ops).db.accounts.get? a).isSome = true ↔
+      ∃ l ∈ (runHist strict {} ops).db.logs, l.involves a := by
+  rw [← projAccounts_listed, account_table_eq_journal strict ops, specOf_listed]
+
+/-- First usage is a running minimum: a transaction touching an existing account
+    sets it to `min(timestamp, previous)`, keeps the insertion date, and a metadata
+    save never moves it (reference reading; equal to the tables by
+    `account_table_eq_journal`). -/
+theorem first_usage_is_min (schemas : List Schema) (v : String) (ts ins date : Time)
+    (acc : Ledger.Base.Map String AccSpec) (b : String) (m : Meta) (x : AccSpec) (hx : acc.get? b = some x) :
+    (∃ y, (specTouch schemas v ts ins acc b m).get? b = some y ∧
+        y.firstUsage = (if ts < x.firstUsage then ts else x.firstUsage) ∧ y.insertionDate = x.insertionDate) ∧
+    (∃ y, (specSave schemas v date acc b m).get? b = some y ∧
+        y.firstUsage = x.firstUsage ∧ y.insertionDate = x.insertionDate) := by
+  constructor
+  · unfold specTouch
+    simp only [hx]
+    split
+    · exact ⟨_, get?_insert_self _ _ _, rfl, rfl⟩
+    · rename_i hc
+      refine ⟨x, hx, ?_, rfl⟩
+      simp only [Bool.or_eq_true, decide_eq_true_eq, not_or] at hc
+      rw [if_neg hc.1]
+  · unfold specSave
+    simp only [hx]
+    split
+    · exact ⟨x, hx, rfl, rfl⟩
+    · exact ⟨_, get?_insert_self _ _ _, rfl, rfl⟩
+
+/-! tests on concrete histories, and non-vacuity -/
 example : projAccounts (runHist true {} histDates).db = (specOf (runHist true {} histDates).db.logs).accounts := by
   decide +kernel
 example : projAccounts (runHist true {} histDefaults).db = (specOf (runHist true {} histDefaults).db.logs).accounts := by
